@@ -473,15 +473,66 @@ impl<'a> Outbound<'a> {
 // ---------------------------------------------------------------------------------------------
 // ghost transport (records into the statics above so it can be inspected while borrowed)
 // ---------------------------------------------------------------------------------------------
+macro_rules! rec_bytes {
+    ($buf:expr, $k:expr; $($i:literal)*) => {
+        $( if $i < $k && IO_ACC_N + $i < 24 { IO_ACC[IO_ACC_N + $i] = $buf[$i]; } )*
+    };
+}
+
+/// Record the first min(k, 24) accepted bytes (unrolled: no loop, no unwinding bound).
 pub(crate) fn io_record_write(buf: &[u8], k: usize) {
     unsafe {
-        let mut i = 0;
-        while i < k {
-            if IO_ACC_N < 24 {
-                IO_ACC[IO_ACC_N] = buf[i];
-            }
-            IO_ACC_N += 1;
-            i += 1;
+        rec_bytes!(buf, k; 0 1 2 3 4 5 6 7 8 9 10 11 12 13 14 15 16 17 18 19 20 21 22 23);
+        IO_ACC_N += k;
+    }
+}
+
+/// publishes that will be replayed on the next connection (stub for `unresolved_publishes`)
+pub(crate) static mut UNRESOLVED: usize = 0;
+pub(crate) fn st_unresolved_publishes<'a>(_o: &Outbound<'a>) -> usize
+where
+    'a: 'a,
+{
+    unsafe {
+        if N_CLEAR > 0 {
+            0
+        } else {
+            UNRESOLVED
         }
+    }
+}
+
+// ---------------------------------------------------------------------------------------------
+// Stub for the generic `write_packet<C, T>` (projection only makes it a plain fn, but the stub is
+// harmless in the coroutine overlay where it is never referenced).  Used by the CONNACK-handling
+// harnesses: records the fields of the CONNECT instead of encoding it (the encoder is L1's subject).
+// ---------------------------------------------------------------------------------------------
+pub(crate) static mut WP_CALLS: u8 = 0;
+pub(crate) static mut WP_CLEAN_START: bool = false;
+pub(crate) static mut WP_KEEPALIVE: u16 = 0;
+pub(crate) static mut WP_CLIENT_ID0: u8 = 0;
+pub(crate) static mut WP_CLIENT_ID_LEN: usize = 0;
+pub(crate) static mut WP_FAIL: bool = false;
+
+#[cfg(feature = "kani_projection")]
+pub(crate) fn st_write_packet<C: Io, T>(_buffer: &mut [u8], _connection: &mut C, packet: &T) -> Result<(), Error<C::Error>>
+where
+    T: serde::Serialize + ControlPacket + core::fmt::Debug,
+{
+    unsafe {
+        WP_CALLS += 1;
+        log(E_IO_WRITE);
+        // the only caller is connect_handshake with T = Connect
+        assert!(core::mem::size_of::<T>() == core::mem::size_of::<crate::packets::Connect<'static>>());
+        let c: &crate::packets::Connect<'_> = &*(packet as *const T as *const crate::packets::Connect<'_>);
+        WP_CLEAN_START = c.clean_start;
+        WP_KEEPALIVE = c.keepalive;
+        WP_CLIENT_ID_LEN = c.client_id.0.len();
+        WP_CLIENT_ID0 = if c.client_id.0.is_empty() { 0 } else { c.client_id.0.as_bytes()[0] };
+        if WP_FAIL {
+            IO_ERRS += 1;
+            return Err(Error::WriteZero);
+        }
+        Ok(())
     }
 }
